@@ -214,6 +214,7 @@ class FnAnalysis:
         self.block_in = {}
         self.ret_labels = EMPTY
         self.ret_cells = {}
+        self.written = set()
         self.events = {}       # sink events (kind, site) -> labels
 
     # ---- state helpers: state = {root: {path: labels}} ----
@@ -234,9 +235,10 @@ class FnAnalysis:
                 out |= l
         return out
 
-    @staticmethod
-    def st_write(st, cell, labels, strong):
+    def st_write(self, st, cell, labels, strong):
         root, path = cell
+        if isinstance(root, tuple) and root[0] == "P":
+            self.written.add((root[1], path))
         d = st.get(root)
         d = dict(d) if d else {}
         if strong:
@@ -520,7 +522,7 @@ class FnAnalysis:
                     d = st.get(("P", i), {})
                     for p, l in d.items():
                         init = self.pol.param_atoms(self.eng, self.fn, i, p, False)
-                        if l != init:
+                        if l != init or (i, p) in self.written:
                             key = (i, p)
                             self.out_cells[key] = self.out_cells.get(key, EMPTY) | l
             if 0 in self.pts:
@@ -923,10 +925,21 @@ class FnAnalysis:
                     allp |= p
             if name.endswith("::leading_zeros") or name.endswith("::trailing_zeros"):
                 self.sink("valueread", line, allv, name)
+            # out-parameters of intrinsics (e.g. _addcarry_u64(c, a, b, &mut out))
+            for (l, p, op) in argv:
+                if p and self._is_mut_ref(op):
+                    for c in p:
+                        self.st_write(st, c, allv | extra, False)
             self.write_dest(dest, allv | extra, st, allp if self.eng.may_hold_ref(self.fn["locals"][dest[0]][0]) else None)
             return
         self.eng.unmodelled[name] = self.eng.unmodelled.get(name, 0) + 1
         self.call_default(name, argv, dest, st, extra, line)
+
+    def _is_mut_ref(self, op):
+        if op[0] in ("cp", "mv") and len(op[1]) == 1:
+            td = self.f.ty(self.fn["locals"][op[1][0]][0])
+            return td.get("k") in ("ref", "ptr") and bool(td.get("mut"))
+        return False
 
     def _is_scalar_index(self, op):
         if op[0] in ("cp", "mv"):
